@@ -14,6 +14,10 @@ from engine import REPO, gen_states, pool_map
 from readers import read_text, run_cli, split_gfa, write_text, workdir, lines_of
 
 
+def idnum(nid):
+    return int(re.sub(r"\D", "", nid) or 0)
+
+
 def seq_of(nid, ln):
     return "".join("ACGT"[(ord(c) + 3 * k) % 4] for k, c in enumerate((nid * 3)[:ln]))
 
@@ -22,13 +26,13 @@ def build_lines(st, decorate, rnd):
     S, Ls, other = [], [], []
     for n in sorted(st["nodes"], key=lambda n: n["id"]):
         tags = [f"LN:i:{n['ln']}", f"SN:Z:{n['sn']}", f"SO:i:{n['so']}", f"SR:i:{n['sr']}"]
-        if decorate and n["sr"] == 1 and int(n["id"][1:]) % 4 == 2:
+        if decorate and n["sr"] == 1 and idnum(n["id"]) % 4 == 2:
             tags = [f"LN:i:{n['ln']}"]       # a segment outside the rGFA reference annotation: no SN / SO / SR at all
         if decorate:
-            extra = [["xn:i:-3"], ["xx:Z:a:b", "xf:f:1e-05"], ["xs:Z:two words "], ["xa:A:*"]][int(n["id"][1:]) % 4]
+            extra = [["xn:i:-3"], ["xx:Z:a:b", "xf:f:1e-05"], ["xs:Z:two words "], ["xa:A:*"]][idnum(n["id"]) % 4]
             tags += extra
         sq = seq_of(n["id"], n["ln"])
-        if decorate and int(n["id"][1:]) % 3 == 1:      # soft-masked / ambiguous bases: the sequence text is data, not a normal form
+        if decorate and idnum(n["id"]) % 3 == 1:      # soft-masked / ambiguous bases: the sequence text is data, not a normal form
             sq = sq[:1].lower() + sq[1:-1] + ("n" if len(sq) > 1 else "")
         S.append("\t".join(["S", n["id"], sq] + tags))
     for k, l in enumerate(sorted(st["links"], key=lambda l: (l["a"], l["ao"], l["b"], l["bo"]))):
@@ -255,6 +259,14 @@ def sessions(ctx, cfgs, mode, opts_for=lambda k: {}):
                 nodes = [dict(n, sn=("ptg0000" + n["sn"][3:] + "l") if n["sr"] == 1 and n["sn"].startswith("alt") else n["sn"]) for n in nodes]
             chroms = [dict(c, name=ren.get(c["name"], c["name"])) for c in st["chroms"]]
             links = st["links"]
+            # segment names are free text: two of seven sessions use plain integers, as graphs from other tools do - counted from 0
+            # (names like "0", "1": what a program might use for its own bookkeeping) or from 5 (bubbles across the 9 | 10 boundary)
+            if k % 7 in (3, 5):
+                off = 8 if k % 7 == 3 else 3
+                rid = lambda x: str(int(x[1:]) - off)      # noqa: E731
+                nodes = [dict(n, id=rid(n["id"])) for n in nodes]
+                links = [dict(l, a=rid(l["a"]), b=rid(l["b"])) for l in links]
+                chroms = [dict(c, elems=[dict(e, ns=[rid(x) for x in e["ns"]]) for e in c["elems"]]) for c in chroms]
             jobs.append((f"{cfg[12:-4]}-{k}", {"nodes": nodes, "links": links, "chroms": chroms}, mode, ctx.seed * 1009 + k, opts_for(k)))
     return jobs
 
